@@ -170,6 +170,16 @@ def main(run: core.Run) -> int:
                 "reconnect after every failure/loss, connect_loop() returns at the same virtual instant as close(), all transports closed, no pending tasks; non-trivial = executions with a close() injected")
     L = 3 if q else 4
     allscripts = list(scripts(L))
+    # attempts that complete after a bare yield to the event loop (neither instantly nor after a timer): more interleavings
+    YO = (("S", 1e-6), ("F", 1e-6), ("S", 0), ("F", 0))
+    for n in ((1, 2) if q else (1, 2, 3)):
+        for seq in itertools.product(YO, repeat=n):
+            if all(d == 0 for _, d in seq):
+                continue
+            succ = [i for i, (k, _) in enumerate(seq) if k == "S"]
+            for ls in itertools.product((None, 0, 1), repeat=len(succ)):
+                li = iter(ls)
+                allscripts.append(tuple((k, d, next(li) if k == "S" else None) for k, d in seq))
     if not q:
         # length 5 without slow outcomes, to keep the count finite and useful
         for seq in itertools.product((("S", 0), ("F", 0)), repeat=5):
